@@ -778,8 +778,10 @@ def verdict(tr, twin):
             keep_ev[i] = False
         visible = [m for m in react_rx if m[0] != M.MSG_IGNORE]
         app = [e for e in rc['ev'] if e[0] not in _END_EVENTS]
-        unimpl = (len(visible) == len(rc['seqs']) and
-                  all(v[0] == M.MSG_UNIMPLEMENTED and v[1] == struct.pack('>I', q) for v, q in zip(visible, rc['seqs'])))
+        # only UNIMPLEMENTED replies, each naming a different probe of this group
+        named = [v[1] for v in visible if v[0] == M.MSG_UNIMPLEMENTED]
+        unimpl = (bool(visible) and len(named) == len(visible) and len(set(named)) == len(named) and
+                  all(n in [struct.pack('>I', q) for q in rc['seqs']] for n in named))
         if rc['closed'] or rc['disconnect'] is not None:
             others = [m for m in visible if m[0] not in (M.MSG_DISCONNECT, M.MSG_UNIMPLEMENTED)]
             local.append(('F', '') if not others and not app else ('H', 'effect-then-close'))
